@@ -30,6 +30,7 @@ QUICK_DIALECTS = ["", "bigquery", "clickhouse", "duckdb", "mysql", "postgres", "
 MENU = ["SELECT", "FROM", "WHERE", "GROUP BY", "ORDER BY", "JOIN", "ON", "AS", "AND", "OR", "NOT", "IN", "IS", "NULL", "CASE",
         "WHEN", "THEN", "ELSE", "END", "UNION", "WITH", "INSERT", "INTO", "VALUES", "CREATE", "TABLE", "(", ")", ",", ";", ".",
         "*", "=", "+", "-", "'s'", "1", "a", "::", "["]
+ALL_TARGETS: list = []
 LEVELS = {"IMMEDIATE": ErrorLevel.IMMEDIATE, "RAISE": ErrorLevel.RAISE, "WARN": ErrorLevel.WARN, "IGNORE": ErrorLevel.IGNORE}
 
 
@@ -176,6 +177,7 @@ def pumping_families():
 
 def worker(shard, nshards, plan, quick):
     logging.disable(logging.CRITICAL)
+    ALL_TARGETS[:] = all_dialects()
     METER.install()
     res = {"evaluations": 0, "nontrivial": 0, "viol": {}, "samples": [], "max_steps_per_char": 0.0, "recursion_depth_seen": {}}
     R = Runner(res)
@@ -204,6 +206,24 @@ def worker(shard, nshards, plan, quick):
                         R.one(sql[:i], dialect, levels[:1], generate=False)
                 if len(res["samples"]) < 2:
                     res["samples"].append({"space": "mutants", "dialect": dialect or "base", "seed": sql})
+        elif kind == "transpile_all":
+            # trees the parser returns for a statement, generated into EVERY dialect (cross-dialect transforms on dialect-only nodes)
+            _, _, seeds = unit
+            for sql in seeds:
+                idx += 1
+                if idx % nshards != shard:
+                    continue
+                n = len(sql)
+                try:
+                    trees = [t for t in D.parse(sql) if t is not None]
+                except Exception:
+                    continue
+                for tree in trees:
+                    for target in ALL_TARGETS:
+                        out, exc, steps = METER.run(lambda: tree.sql(dialect=target or None, unsupported_level=ErrorLevel.IGNORE), budget(n) * 4)
+                        res["evaluations"] += 1
+                        if exc is not None and not isinstance(exc, SqlglotError):
+                            R.record("generate", target, f"transpile:{dialect}", sql, exc, steps, n)
         elif kind == "soups":
             _, _, n, levels = unit
             for ln in range(1, n + 1):
@@ -269,6 +289,14 @@ def run(ctx: Ctx) -> None:
         by_d.setdefault(d, []).append(sql)
     for d, sqls in sorted(by_d.items()):
         plan.append(("mutants", d, sqls, ["IMMEDIATE", "IGNORE"] if quick else ["IMMEDIATE", "RAISE", "WARN", "IGNORE"], False))
+    from vlib.grammar_clauses import clause_statements
+
+    cl = [sql for sql, tags in clause_statements()]
+    for i in range(0, len(cl), 150):
+        plan.append(("transpile_all", "", cl[i:i + 150]))
+    for d, sqls in sorted(by_d.items()):
+        for i in range(0, len(sqls), 150):
+            plan.append(("transpile_all", d, sqls[i:i + 150]))
     for d in (dialects if quick else all_dialects()):
         plan.append(("chars", d, char_alphabet(), 3 if quick else 4, ["IMMEDIATE"]))
     res = ctx.run_shards(worker, ctx.jobs * 4, plan, quick)
@@ -290,7 +318,8 @@ def run(ctx: Ctx) -> None:
             "rule": "every 1-token mutant (delete/duplicate/swap; insert of each of 40 menu tokens for the simplest seeds) and every prefix of "
                     "G_core k<=1 statements, of identity.sql and of every statement of tests/dialects/*.py in its own dialect (" + str(len(corpus.dialect_test_sql())) + " seeds); every token soup of length <= 3 over the 40-token menu; every "
                     "character string of length <= 3 over a 34-character alphabet; 25 pumping families (n up to 64 / nesting 32); x dialects x "
-                    "error levels; every returned tree generated in its own and the base dialect. non-trivial = runs that ended in a "
+                    "error levels; every returned tree generated in its own and the base dialect; every G_clauses statement (base) and every "
+                    "dialect-test statement (own dialect) generated into ALL dialects. non-trivial = runs that ended in a "
                     "sqlglot error (the error paths were driven).",
             "step_budget": BUDGET_FORMULA,
             "max_steps_per_char_in_pumping": round(res["max_steps_per_char"], 1),
@@ -308,6 +337,13 @@ def replay(ctx: Ctx, case: dict) -> bool:
     METER.install()
     res = {"evaluations": 0, "nontrivial": 0, "viol": {}, "samples": [], "max_steps_per_char": 0.0}
     R = Runner(res)
+    if str(case.get("level", "")).startswith("transpile:"):
+        src = case["level"].split(":", 1)[1]
+        ALL_TARGETS[:] = [case["dialect"]]
+        worker_res = worker(0, 1, [("transpile_all", src, [case["sql"]])], True)
+        for sig, v in worker_res["viol"]:
+            print(sig, "|", v["what"])
+        return bool(worker_res["viol"])
     lv = [case["level"]] if case.get("level") in LEVELS else ["IMMEDIATE", "IGNORE"]
     R.one(case["sql"], case["dialect"] if case["phase"] != "generate" else case["dialect"], lv)
     if case["phase"] == "generate":
